@@ -19,7 +19,7 @@ from . import coqlit as L
 from .core import Relation, err_kind
 
 PROP = "C11"
-CLAIMED = False
+CLAIMED = True
 COQ_MODULES = ["C11_Check", "C11_Proofs", "C11_Proofs2", "C11_Proofs3", "C11_Proofs4", "C11_Proofs5", "C11_Proofs6", "C11_Proofs7", "C11_Proofs8"]
 PROPERTY_MODULE = "C11_Property"
 ALLOWED_AXIOMS = []
